@@ -272,12 +272,14 @@ func (l *sequenceListener) ExitWildcardAS(c *sequence.WildcardASContext) {
 
 func (l *sequenceListener) ExitLegacyAS(c *sequence.LegacyASContext) {
 	re := c.GetText()[1:]
+	re = canonicalAS(re)
 	//fmt.Printf("LegacyAS: %s RE: %s\n", c.GetText(), re)
 	l.push(re)
 }
 
 func (l *sequenceListener) ExitAS(c *sequence.ASContext) {
 	re := c.GetText()[1:]
+	re = canonicalAS(re)
 	//fmt.Printf("AS: %s RE: %s\n", c.GetText(), re)
 	l.push(re)
 }
@@ -329,4 +331,15 @@ func GetSequence(path snet.Path) (string, error) {
 		desc = strings.Join(hops, " ")
 	}
 	return desc, nil
+}
+
+// canonicalAS returns the canonical spelling of the AS number in text (the one hops are rendered
+// with when a path is matched against the expression), so that matching is by value: upper-case
+// hex digits and BGP AS numbers written in hex form denote the same AS as their canonical form.
+func canonicalAS(text string) string {
+	as, err := addr.ParseAS(text)
+	if err != nil {
+		return text
+	}
+	return as.String()
 }
